@@ -418,6 +418,7 @@ impl<F: NttFriendlyFieldElement, S: ParallelSumGadget<F, Mul>> Histogram<F, S> {
         if !length.is_multiple_of(chunk_length) {
             gadget_calls += 1;
         }
+        check_parallel_sum_lengths(chunk_length, gadget_calls)?;
 
         Ok(Self {
             length,
@@ -625,6 +626,7 @@ impl<F: NttFriendlyFieldElement, S: ParallelSumGadget<F, Mul>> MultihotCountVec<
 
         // Gadget calls is ⌈meas_length / chunk_length⌉
         let gadget_calls = meas_length.div_ceil(chunk_length);
+        check_parallel_sum_lengths(chunk_length, gadget_calls)?;
 
         Ok(Self {
             length: num_buckets,
@@ -870,6 +872,7 @@ impl<F: NttFriendlyFieldElement, S: ParallelSumGadget<F, Mul>> SumVec<F, S> {
         if flattened_len % chunk_length != 0 {
             gadget_calls += 1;
         }
+        check_parallel_sum_lengths(chunk_length, gadget_calls)?;
 
         Ok(Self {
             len,
@@ -1002,6 +1005,29 @@ where
     fn output_len(&self) -> usize {
         self.len
     }
+}
+
+/// Checks that the proof and verifier lengths of a circuit built around a `ParallelSum` gadget
+/// with the given chunk length and number of gadget calls are representable, so that the length
+/// accessors of a successfully constructed type cannot overflow.
+pub(crate) fn check_parallel_sum_lengths(
+    chunk_length: usize,
+    gadget_calls: usize,
+) -> Result<(), FlpError> {
+    // proof_len() is 2 * chunk_length + 2 * ((1 + gadget_calls).next_power_of_two() - 1) + 1 and
+    // verifier_len() is 2 + 2 * chunk_length.
+    gadget_calls
+        .checked_add(1)
+        .and_then(usize::checked_next_power_of_two)
+        .and_then(|wire_poly_len| (wire_poly_len - 1).checked_mul(2))
+        .and_then(|gadget_poly_len| chunk_length.checked_mul(2)?.checked_add(gadget_poly_len))
+        .and_then(|len| len.checked_add(2))
+        .map(|_| ())
+        .ok_or_else(|| {
+            FlpError::InvalidParameter(
+                "chunk_length or measurement length is too large".to_string(),
+            )
+        })
 }
 
 /// Given a vector `data` of field elements which should contain exactly one entry, return the
